@@ -79,8 +79,52 @@ def _traced_client_class(fine):
         _txthread = fakes.YAttr('_txthread', None, log_get=True)
         _rxthread = fakes.YAttr('_rxthread', None, log_get=True)
         _running = fakes.YAttr('_running', False, log_get=True)
+        _connthread = fakes.YAttr('_connthread', None, log_get=True)
+        _cancel_reconnect = fakes.YAttr('_cancel_reconnect', None, log_get=True)
     TracedClient.__name__ = 'SecopClient'
     return TracedClient
+
+
+class LogDict(dict):
+    """stand-in for `SecopClient._reconnecting` (reconnect thread -> cancel event): every access is a yield point and is
+    written to the effect log; `items()` is a snapshot (as `list(d.items())` is one step of the interpreter)"""
+
+    def __init__(self, instr, name):
+        super().__init__()
+        self.instr = instr
+        self.yname = name
+
+    def _y(self, op):
+        self.instr.s.yield_(('dict.' + op, self.yname))
+
+    def __contains__(self, k):
+        self._y('contains')
+        r = dict.__contains__(self, k)
+        self.instr.ev('r.member', getattr(k, 'name', str(k)), r)
+        return r
+
+    def __setitem__(self, k, v):
+        self._y('setitem')
+        dict.__setitem__(self, k, v)
+        self.instr.ev('r.add', getattr(k, 'name', str(k)))
+
+    def add(self, k):           # (the registry was a set before the repair)
+        self[k] = None
+
+    def discard(self, k):
+        self.pop(k, None)
+
+    def pop(self, k, *default):
+        self._y('pop')
+        r = dict.pop(self, k, *default)
+        self.instr.ev('r.pop', getattr(k, 'name', str(k)))
+        return r
+
+    def items(self):
+        self._y('items')
+        r = list(dict.items(self))
+        self.instr.ev('r.items', [getattr(k, 'name', str(k)) for k, _ in r])
+        return r
 
 
 class _Log:
@@ -125,7 +169,7 @@ def run_case(case, policy, max_steps=6000):
     with s.patched(fc, queue=fakes.LQueueModule(instr, ['txq', 'pending']), Event=fakes.levent_factory(instr),
                    RLock=fakes.llock_factory(instr, ['_lock', 'reqlock']),
                    mkthread=lambda f, *a, **k: fakes.LHandle(instr, s.mkthread(f, *a, **k)), time=s.time,
-                   current_thread=s.threading.current_thread, AsynConn=peer.connect):
+                   current_thread=lambda: fakes.LHandle(instr, s.threading.current_thread(), announce=False), AsynConn=peer.connect):
         cls = _traced_client_class(case.get('fine', False))
         client = cls('fake:1', _Log())
         client.activate = bool(case.get('activate', False))
@@ -133,6 +177,7 @@ def run_case(case, policy, max_steps=6000):
         client.cleanup = fakes.YList(instr, 'cleanup')
         if case.get('fine', False):
             client.__dict__['_instr'] = instr
+            client._reconnecting = LogDict(instr, 'reconnecting')
 
         def caller(i, c):
             if c.get('delay'):
@@ -660,6 +705,260 @@ def to_shutdown_acts(obs):
     return acts
 
 
+def to_life_acts(obs):
+    """attribute-level run -> acts of the life-cycle model (Client/Reconnect.lean): one act per entry of the effect log that
+    is a shared access of connect() / disconnect() / the workers / the reconnect threads, with the kind of access (`ev`), the
+    queue object touched (`q`) and the thread waited for (`w`); which step that is, is decided by the model.
+    The model starts after the first connect(): tx thread = 0, rx thread = 1, connection 0, queue 0."""
+    ev = obs['events']
+    try:
+        start = next(i for i, e in enumerate(ev) if e[1] == 'start')
+    except StopIteration:
+        return None
+    tid = {'txthread': 0, 'rxthread': 1}
+    nxt = [2]
+    qmap = {}
+    for e in ev[:start]:
+        if e[1] == 'q.new' and e[2] == 'txq':
+            qmap = {e[3]: 0}
+    nq = [1]
+    acts = []
+    lock = set()          # threads inside connect() (holding _lock)
+    in_cx = set()         # ... on their way through the except clause
+    skip_isset = set()
+    skip_run = set()
+    expect_gate = set()
+    expect_ident = set()
+    gates = set()
+    cancels = set()
+    rx_loop = {'rxthread'}
+    rx_io = {'rxthread': 0}
+    rx_made = set()
+    delivered = set()
+    gone = set()          # user threads whose request() has done its put: the rest is the matching model's
+    tx_hold = set()
+
+    def conn_of(v):
+        return int(v[4:]) if isinstance(v, str) and v.startswith('conn') else None
+
+    def new_thread(name):
+        tid[name] = nxt[0]
+        nxt[0] += 1
+
+    def act(th, kind, o=0, **kw):
+        a = {'a': ['th', tid[th], o], 'ev': kind}
+        a.update(kw)
+        acts.append(a)
+
+    def nextev(i, th):
+        for e in ev[i + 1:]:
+            if e[0] == th:
+                return e
+        return None
+
+    for i in range(start + 1, len(ev)):
+        e = ev[i]
+        th, kind = e[0], e[1]
+        if kind == 'call.begin':
+            acts.append({'a': ['newReq'], 'ev': '-'})
+            new_thread(th)
+            continue
+        if kind in ('close.begin', 'final.begin'):
+            acts.append({'a': ['newDisc'], 'ev': '-'})
+            new_thread(th)
+            gone.discard(th)
+            continue
+        if th not in tid or th in gone:
+            continue
+        is_rx, is_tx = th.startswith('rxthread'), th.startswith('txthread')
+        if kind == 'a.set':
+            name, v = e[2], e[3]
+            if name == '_running':
+                act(th, 'run1' if v else 'run0')
+                if v:
+                    expect_gate.add(th)
+            elif name == 'io':
+                act(th, 'set.io0' if v is None else 'set.io')
+                if v is not None:
+                    expect_ident.add(th)
+            elif name == '_txthread':
+                if v is None:
+                    act(th, 'set.tx0')
+                else:
+                    act(th, 'set.tx')
+                    new_thread(v)
+            elif name == '_rxthread':
+                if v is None:
+                    act(th, 'set.rx0')
+                    rx_loop.discard(th)
+                else:
+                    act(th, 'set.rx')
+                    new_thread(v)
+                    rx_loop.add(v)
+            elif name == '_connthread':
+                act(th, 'set.conn0' if v is None else 'set.conn')
+            elif name == '_cancel_reconnect':
+                cancels.add(v)
+                act(th, 'set.cancel')
+        elif kind == 'a.get':
+            name, v = e[2], e[3]
+            if name == '_running':
+                if th in skip_run:
+                    skip_run.discard(th)
+                else:
+                    act(th, 'get.run')
+            elif name == 'io':
+                act(th, 'get.io')
+                if is_rx:
+                    rx_io[th] = conn_of(v)
+                if th in expect_ident and v is None:
+                    expect_ident.discard(th)       # AttributeError in connect()
+                    in_cx.add(th)
+            elif name == '_txthread':
+                act(th, 'get.tx')
+            elif name == '_rxthread':
+                act(th, 'get.rx')
+            elif name == '_connthread':
+                act(th, 'get.conn')
+            elif name == '_cancel_reconnect':
+                act(th, 'get.cancel')
+        elif kind == 'ev.new':
+            if th in expect_gate:
+                expect_gate.discard(th)
+                gates.add(e[2])
+            elif is_rx:
+                rx_made.add(e[2])
+        elif kind == 'ev.set':
+            name = e[2]
+            if name == 'E0':
+                act(th, 'sdset')
+            elif name in gates:
+                act(th, 'gate')
+            elif name in cancels:
+                act(th, 'cancel')
+            elif is_rx and th in rx_loop:
+                delivered.add(name)
+        elif kind == 'ev.clear' and e[2] == 'E0':
+            act(th, 'c2')
+        elif kind == 'r.member':
+            if e[3]:
+                act(th, 'c2')
+        elif kind == 'r.add':
+            act(th, 'r.add')
+        elif kind == 'r.pop':
+            act(th, 'r.pop')
+        elif kind == 'r.items':
+            act(th, 'r.items')
+        elif kind == 'ev.isset':
+            name = e[2]
+            if name == 'E0':
+                if th in skip_isset:
+                    skip_isset.discard(th)
+                else:
+                    act(th, 'isset')
+            elif name in cancels:
+                act(th, 'isset.c')
+        elif kind == 'ev.wait':
+            name = e[2]
+            if name == 'E0':
+                if th in lock:
+                    in_cx.discard(th)
+                    act(th, 'cx', 0)
+                else:
+                    act(th, 'sdwait')
+            elif name in gates:
+                act(th, 'gwait')
+            elif th in lock:
+                ok = bool(e[3]) and name in delivered
+                act(th, 'wait', 0 if ok else 1)
+                if not ok:
+                    in_cx.add(th)
+                    if e[3]:
+                        skip_isset.add(th)      # get_reply() looks at the flag for its message
+        elif kind == 'lk.acq' and e[2] == '_lock':
+            lock.add(th)
+            act(th, 'lock')
+        elif kind == 'lk.rel' and e[2] == '_lock':
+            if th in in_cx:
+                in_cx.discard(th)
+                act(th, 'cx', 1)
+            lock.discard(th)
+            act(th, 'unlock')
+        elif kind == 'c.new':
+            act(th, 'cnew', 0 if e[2] else 1)
+            if not e[2]:
+                in_cx.add(th)
+        elif kind in ('c.read.setup', 'c.read.closed', 'c.read.fail', 'c.read.timeout', 'c.read', 'c.read.none'):
+            if th in expect_ident:
+                expect_ident.discard(th)
+                ok = kind == 'c.read.setup'
+                act(th, 'ident', 0 if ok else 1)
+                if not ok:
+                    in_cx.add(th)
+            elif is_rx:
+                if kind == 'c.read.closed':
+                    if rx_io.get(th) is not None:
+                        acts.append({'a': ['drop', rx_io[th]], 'ev': '-'})
+                    act(th, 'read', 1)
+                elif kind in ('c.read.fail', 'c.read.timeout'):
+                    act(th, 'read', 3)
+                else:
+                    n = nextev(i, th)
+                    hb = n is not None and n[1] == 'lk.acq' and n[2] == '_lock'
+                    act(th, 'read', 2 if hb else 0)
+        elif kind == 'c.shutdown':
+            act(th, 'shut')
+        elif kind == 'c.disconnect':
+            act(th, 'cdisc')
+        elif kind == 'th.join':
+            if e[2] in tid:
+                act(th, 'join', w=tid[e[2]])
+        elif kind == 'th.new':
+            if e[2].startswith('reconnect'):
+                act(th, 'thnew')
+                new_thread(e[2])
+        elif kind == 'q.new' and e[2] == 'txq':
+            qmap[e[3]] = nq[0]
+            nq[0] += 1
+            act(th, 'qnew')
+        elif kind == 'q.get.fail' and e[2] == 'pending':
+            act(th, 'pend')
+        elif kind in ('q.empty', 'q.get', 'q.get.fail', 'q.put') and e[2] == 'txq':
+            q = qmap.get(e[-1], 99)
+            if kind == 'q.empty':
+                act(th, 'qempty', q=q)
+            elif kind == 'q.get.fail':
+                act(th, 'qget', q=q)
+            elif kind == 'q.get':
+                if e[4]:
+                    parked = False
+                    for e2 in ev[i + 1:]:
+                        if e2[0] == th and e2[1] in ('q.put', 'q.get', 'a.get', 'c.send', 'c.send.lost', 'c.send.setup', 'c.send.fail'):
+                            parked = e2[1] == 'q.put' and e2[2] == 'pending'
+                            break
+                    act(th, 'qgetb', 2 if parked else 0, q=q)
+                    if e[3] is not None and not parked:
+                        tx_hold.add(th)
+                else:
+                    act(th, 'qget', q=q)
+            elif e[3] is None:
+                act(th, 'qputm', q=q)
+            elif is_rx and e[3] not in rx_made:
+                acts.append({'a': ['put', q], 'ev': '-'})       # a parked request goes back to the queue
+            else:
+                act(th, 'qput', q=q)
+                if is_rx:
+                    rx_made.discard(e[3])
+                    skip_run.add(th)
+                elif th not in lock:
+                    gone.add(th)
+        elif is_tx and th in tx_hold and (kind in ('c.send', 'c.send.lost', 'c.send.setup', 'c.send.fail')
+                                          or (kind == 'q.put' and e[2] == 'pending')):
+            tx_hold.discard(th)
+            act(th, 'proc', 1 if kind == 'c.send.fail' else 0)
+    return acts
+
+
 def _uid_of_error(out):
     import re
     m = re.search(r'u(\d+)', out.get('text', ''))
@@ -851,6 +1150,9 @@ def requests_for(case, obs, schedule):
         acts = to_shutdown_acts(obs)
         if acts is not None:
             reqs.append({'p': 'C11', 'k': 'shutdown_replay', 'acts': acts})
+        acts = to_life_acts(obs)
+        if acts is not None:
+            reqs.append({'p': 'C11', 'k': 'life_replay', 'acts': acts, 'activate': bool(case.get('activate', False))})
     return reqs, L
 
 
@@ -859,7 +1161,7 @@ def known_actions():
     return set(REQUEST2REPLY)
 
 
-def assess(case, schedule, obs, L, replay_ans, judge_ans, res, ctx, shut_ans=None):
+def assess(case, schedule, obs, L, replay_ans, judge_ans, res, ctx, shut_ans=None, life_ans=None):
     """compare model and implementation, classify what the Lean monitors report; returns list of (sig, what)"""
     out = []
     if 'driver_error' in replay_ans or 'driver_error' in judge_ans or (shut_ans is not None and 'driver_error' in shut_ans):
@@ -872,6 +1174,17 @@ def assess(case, schedule, obs, L, replay_ans, judge_ans, res, ctx, shut_ans=Non
                          ('shutdown model: after act %d the thread is at %s, the implementation at %s'
                           % (k, shut_ans.get('got'), shut_ans.get('want'))),
                 'impl': {'state': shut_ans['final']}, 'case': {'case': case, 'schedule': schedule}})
+    if life_ans is not None and 'driver_error' in life_ans:
+        raise RuntimeError(f'driver error: {life_ans}')
+    if life_ans is not None and (ctx is None or ctx.model_ok):
+        k = life_ans['refused_at'] if life_ans['refused_at'] is not None else life_ans['mismatch_at']
+        if k is not None:
+            acts = to_life_acts(obs)
+            res.disagreements.append({
+                'model': 'life-cycle model: the acting thread is at %s, which does not produce event %d: %s'
+                         % (life_ans.get('at'), k, acts[k]),
+                'impl': {'events before': [(a['a'], a['ev']) for a in acts[max(0, k - 6):k]], 'state': life_ans['final']},
+                'case': {'case': case, 'schedule': schedule}})
     # ---- correspondence
     if ctx is None or ctx.model_ok:
         dis = None
@@ -963,7 +1276,8 @@ def fails_with(case, schedule, sig, driver):
 
     class _R:
         disagreements = []
-    return any(s == sig for s, _ in assess(case, schedule, obs, L, a[0], a[1], _R(), None, a[2] if len(a) > 2 else None))
+    return any(s == sig for s, _ in assess(case, schedule, obs, L, a[0], a[1], _R(), None, a[2] if len(a) > 2 else None,
+                                           a[3] if len(a) > 3 else None))
 
 
 def shrink(case, schedule, sig, driver):
@@ -1195,8 +1509,12 @@ def run(ctx):
             res.traces += 1
             if nreq > 2:
                 res.count('shutdown-model-replays')
+            if nreq > 3:
+                res.count('life-cycle-model-replays')
+                if any(e[1] == 'c.new' for e in obs['events'] if e[0] != 'main'):
+                    res.count('life-cycle-model-replays-with-reconnection')
             found = assess(case, schedule, obs, L, answers[off], answers[off + 1], res, ctx,
-                           answers[off + 2] if nreq > 2 else None)
+                           answers[off + 2] if nreq > 2 else None, answers[off + 3] if nreq > 3 else None)
             kinds = sorted({c['out'] for c in L['callers']})
             labs = [lb[0] for lb in L['labels']]
             res.count('outcomes=' + '+'.join(kinds))
@@ -1303,7 +1621,9 @@ def replay(ctx, rp):
     res = Result()
     if len(a) > 2:
         print('shutdown:', a[2])
-    found = assess(case, schedule, obs, L, a[0], a[1], res, ctx, a[2] if len(a) > 2 else None)
+    if len(a) > 3:
+        print('life    :', a[3])
+    found = assess(case, schedule, obs, L, a[0], a[1], res, ctx, a[2] if len(a) > 2 else None, a[3] if len(a) > 3 else None)
     for sig, what in found:
         print('fails   :', sig, '-', what)
     for d in res.disagreements:
